@@ -68,6 +68,20 @@ def run(ctx):
     if ri:
         ctx.check("C08-b", "BufferedRaftLog::reset_internal#lowers-next_id", any(lowers_next_id(b) for b in F.group_bodies(ri)),
                   "positive control: reset_internal stores next_id", "reset_internal no longer stores next_id (rule lost its positive control)")
+    # ---------------------------------------------------------------- C08-d purge beyond the local tail (snapshot install) moves the allocator past the boundary
+    pg = ctx.anchor(F.method, "BufferedRaftLog", "purge_logs_up_to")
+    if pg:
+        hit = False
+        for b in F.group_bodies(pg):
+            for (bi, t) in field_receiver_calls(F, b, "BufferedRaftLog", "next_id", r"atomic::Atomic\w*::(store|fetch_max|fetch_update|compare_exchange)$"):
+                v = Slice(F, b, through_calls=True).operand(t["args"][1]) if len(t["args"]) > 1 else None
+                if v is not None and (any(x[0] == "param" and x[1] == 2 for x in v.sources) or v.has_param("cutoff_index") or v.has_field("LogId", "index")):
+                    hit = True
+        ctx.check("C08-d", "%s#next_id>=boundary+1" % fkey(pg), hit,
+                  "purge raises the index allocator to at least boundary+1",
+                  "purge_logs_up_to(boundary) never raises the index allocator `next_id`: a node whose log ends below the boundary (lagging follower "
+                  "that installs a snapshot covering 1..=10 while holding 1..=5) has last_log_id()=(10,t) but allocates its next entry at 6: if it is "
+                  "elected, its no-op and entries re-use indexes at or below the snapshot boundary", "%s:%s" % (pg.file, pg.line))
     # ---------------------------------------------------------------- C08-c
     g = ctx.anchor(F.method, "ReplicationHandler", "generate_new_entries")
     if g:
